@@ -28,6 +28,12 @@ R17.7   `Session.get_resource_config`: the key of the `<cfg>['schemas'][key]`
         read that is merged (what R17.1 mirrors for every resource x schema
         pair) is the schema parameter as passed; only a request without a
         schema falls back, and then to the entry's `default_schema`
+R17.8   what else `rcfg.verify()` / `get_resource_config` do to the merged
+        config: the package's own verification hooks (`_verify` of the config
+        class and of the typed dictionaries nested in it, an overriding
+        `verify`) and the statements which follow the merge are evaluated
+        concretely on every shipped resource x schema config - an explicit
+        raise / assert reached for one of them makes that platform unusable
 
 Nothing of /repo is imported or executed: JSON files are read as text, the
 python sources through the program model.
@@ -40,6 +46,7 @@ import re
 from ..model import (walk, dotted, call_name, kwarg, unparse, short, UNKNOWN,
                      AnalysisError, calls_in, read_json_tolerant,
                      stores_in_target, PKG)
+from ..model import FuncInfo as _FuncInfo
 from ..cfg import cfg_of
 from ..flow import Deps, guards
 from .. import idioms as I
@@ -851,6 +858,8 @@ def build_ctx(prog, rep):
         base = rel.split('/')[-1]
         if base.startswith('agent_'):
             c.agent_cfgs[base[len('agent_'):-len('.json')]] = rel
+    c.nested_classes = _nested_classes(prog, c.td)
+    c.tail = merge_tail(c)
     c.used_agent_cfgs = {}      # agent cfg name -> {'exec': set, 'sched': set}
     c.nondefault = []           # (resource, schema, default schema) pairs
     return c
@@ -946,6 +955,11 @@ def check_entry(prog, rep, ctx, rel, text, site, label, entry, rid='R17.1'):
             else:
                 rep.ok(rid, where, what + 'passes ResourceConfig.verify()',
                        loc)
+                if rid == 'R17.1':
+                    n1 = len(rep.findings)
+                    check_hooks(prog, rep, ctx, where, res, schema, m, loc)
+                    if len(rep.findings) == n1:
+                        check_tail(prog, rep, ctx, where, res, schema, m, loc)
 
         # endpoints
         eps = [k for k in ('job_manager_endpoint', 'filesystem_endpoint')
@@ -1096,6 +1110,10 @@ def r17_1(prog, rep, ctx, rid='R17.1'):
              'schema and after the merge/verify of get_resource_config, names '
              'a known RM, launch methods, order, scheduler, executor and '
              'agent config', minimum=1000)
+    rep.rule('R17.8', 'the verification hooks rcfg.verify() runs (`_verify` '
+             'of the config class and of the typed dictionaries nested in it, '
+             'an overriding `verify`), evaluated on the merged config, accept '
+             'every shipped resource x schema', minimum=120)
     n_res = n_pairs = 0
     for rel in ctx.files:
         base = rel.split('/')[-1]
@@ -3506,7 +3524,7 @@ class _Frame:
         cn = call_name(c)
         last = cn.split('.')[-1] if cn else ''
         if isinstance(fn, ast.Attribute):
-            if fn.attr == 'get' and c.args:
+            if fn.attr in ('get', 'setdefault') and c.args:
                 base = self.expr_obj(fn.value, nid, stack)
                 a0 = c.args[0]
                 key = a0.value if isinstance(a0, ast.Constant) else None
@@ -3933,6 +3951,16 @@ class _Frame:
                                  'object is read)' % (short(st, 60),
                                                       base.origin), st)
                         continue
+                elif isinstance(st, ast.Assign) and \
+                        isinstance(t, ast.Subscript) and \
+                        self._memo_fill(base, t, st, n):
+                    self._ok('`%s` fills a memo: the key names every '
+                             'parameter of the call, the value is a private '
+                             'deep copy, and the memo is only read through '
+                             'deep copies - a later call with the same '
+                             'arguments gets what it would compute itself'
+                             % short(st, 60), st)
+                    continue
                 self._bad(st, base, 'deletes from' if isinstance(
                     st, ast.Delete) else 'stores into', why or '')
             elif isinstance(t, ast.Name) and aug:
@@ -3951,6 +3979,54 @@ class _Frame:
                 else:
                     self._ok('`%s` changes %s, an object of this call'
                              % (short(st, 60), cur.origin), st)
+
+    def _is_memo_home(self, obj):
+        """an untyped container below an attribute of self which holds no
+        configuration (no TypedDict instance is stored anywhere below it)"""
+        sp = obj.spec
+        if not (isinstance(sp, tuple) and sp[0] == 'store'):
+            return False
+        self.ctx.store_spec(sp[1], 0)
+        return not self.ctx._store.get(sp[1])
+
+    def _memo_fill(self, base, t, st, n):
+        """`M[<every parameter of the call>] = <private deep copy>` where M
+        holds no configuration and is read only through deep copies: the
+        round-6 cache condition (keyed by everything the value depends on -
+        the stored entries never change, that is what the other findings of
+        this rule establish; no reference into the memo is handed out)"""
+        if base.kind != 'S' or not self._is_memo_home(base):
+            return False
+        val = self.expr_obj(st.value, n.id)
+        if val is None or val.kind != 'D':
+            return False
+        k = t.slice
+        elts = k.elts if isinstance(k, ast.Tuple) else [k]
+        if not all(isinstance(x, ast.Name) for x in elts):
+            return False
+        need = set(self.f.params) - {self.selfname}
+        if not need or not need <= {x.id for x in elts}:
+            return False
+        copied = {id(x.args[0]) for x in walk(self.f.node)
+                  if isinstance(x, ast.Call) and x.args and
+                  call_name(x).split('.')[-1] == 'deepcopy'}
+        for x in walk(self.f.node):
+            if isinstance(x, ast.Subscript) and isinstance(x.ctx, ast.Load):
+                load = x.value
+            elif isinstance(x, ast.Call) and \
+                    isinstance(x.func, ast.Attribute) and \
+                    x.func.attr in ('get', 'setdefault', 'pop', 'values',
+                                    'items', 'popitem'):
+                load = x.func.value
+            else:
+                continue
+            m = self.smap.get(id(x))
+            if m is None:
+                continue
+            o = self.expr_obj(load, m.id)
+            if o is not None and o.oid == base.oid and id(x) not in copied:
+                return False
+        return True
 
     def _exempt(self, base, key, st, n):
         """True, or the reason why the store is not idempotent"""
@@ -4074,7 +4150,22 @@ class _Frame:
                 recv = self.expr_obj(fn.value, nid)
                 if recv is None or recv.kind == 'V':
                     return
-                if recv.kind == 'S':
+                if recv.kind == 'S' and fn.attr == 'setdefault' and \
+                        self._is_memo_home(recv) and len(c.args) == 2 and \
+                        not c.keywords and \
+                        isinstance(c.args[0], ast.Constant) and (
+                            isinstance(c.args[1], (ast.Dict, ast.List)) and
+                            not getattr(c.args[1], 'keys',
+                                        getattr(c.args[1], 'elts', None)) or
+                            isinstance(c.args[1], ast.Call) and
+                            isinstance(c.args[1].func, ast.Name) and
+                            c.args[1].func.id in ('dict', 'list') and
+                            not c.args[1].args and not c.args[1].keywords):
+                    self._ok('`%s` creates an empty slot under a constant key '
+                             'of %s, which holds no configuration: the same '
+                             'for every call, what the slot holds is left '
+                             'alone' % (short(c, 60), recv.origin), c)
+                elif recv.kind == 'S':
                     self._bad(c, recv, 'changes in place (%s)' % fn.attr)
                 else:
                     self._ok('`%s` changes %s, an object of this call'
@@ -4548,6 +4639,1064 @@ def r17_7(prog, rep, ctx, rid='R17.7'):
 
 # ------------------------------------------------------------------------------
 #
+# ------------------------------------------------------------------------------
+# R17.8  the verification hooks `rcfg.verify()` runs (`_verify` of the config
+#        class and of the typed dictionaries nested in it, an overriding
+#        `verify`) are evaluated on every merged shipped config
+#
+_U = type('_Unk', (), {'__repr__': lambda s: '<?>'})()
+
+
+class _Undecided(Exception):
+    pass
+
+
+class _Raised(Exception):
+    def __init__(self, node, func, etype, msg):
+        Exception.__init__(self, etype)
+        self.node, self.func, self.etype, self.msg = node, func, etype, msg
+
+
+class _Ret(Exception):
+    def __init__(self, value):
+        Exception.__init__(self)
+        self.value = value
+
+
+class _Brk(Exception):
+    pass
+
+
+class _Cnt(Exception):
+    pass
+
+
+class _CfgObj:
+    """a typed dictionary while its hook runs: data, and the class (attribute
+    reads of schema keys yield None when the key is absent)"""
+
+    def __init__(self, data, td):
+        self.data, self.td = data, td
+
+
+_EXC_BASES = {'KeyError': ('LookupError',), 'IndexError': ('LookupError',),
+              'ValueError': (), 'TypeError': (), 'RuntimeError': (),
+              'AssertionError': (), 'AttributeError': (), 'LookupError': (),
+              'ZeroDivisionError': ('ArithmeticError',),
+              'NotImplementedError': ('RuntimeError',)}
+_PY_FUNCS = {'len': len, 'str': str, 'int': int, 'float': float, 'bool': bool,
+             'list': list, 'tuple': tuple, 'set': set, 'sorted': sorted,
+             'dict': dict, 'min': min, 'max': max, 'sum': sum, 'abs': abs,
+             'any': any, 'all': all, 'repr': repr, 'frozenset': frozenset,
+             'round': round, 'enumerate': lambda *a: list(enumerate(*a)),
+             'zip': lambda *a: list(zip(*a)), 'range': lambda *a: list(range(*a)),
+             'reversed': lambda a: list(reversed(a))}
+_PY_CLASSES = {'str': str, 'int': int, 'float': float, 'bool': bool,
+               'dict': dict, 'list': list, 'tuple': tuple, 'set': set}
+_PURE_METHODS = {
+    str: frozenset(['startswith', 'endswith', 'lower', 'upper', 'strip',
+                    'lstrip', 'rstrip', 'split', 'rsplit', 'join', 'format',
+                    'replace', 'isdigit', 'count', 'find', 'title',
+                    'partition', 'rpartition', 'isalpha', 'isupper',
+                    'islower', 'splitlines', 'capitalize', 'index']),
+    list: frozenset(['index', 'count', 'copy', 'append', 'extend', 'insert',
+                     'remove', 'pop', 'sort', 'reverse']),
+    tuple: frozenset(['index', 'count']),
+    set: frozenset(['add', 'discard', 'remove', 'copy', 'union', 'issubset',
+                    'intersection', 'difference', 'issuperset', 'update',
+                    'isdisjoint']),
+    frozenset: frozenset(['union', 'issubset', 'intersection', 'difference',
+                          'issuperset', 'isdisjoint', 'copy']),
+    dict: frozenset(['get', 'keys', 'values', 'items', 'setdefault', 'update',
+                     'pop', 'copy']),
+}
+_JUMPS = (ast.Raise, ast.Return, ast.Break, ast.Continue, ast.Assert,
+          ast.Call, ast.Subscript, ast.Try, ast.With)
+_HARD_JUMPS = (ast.Raise, ast.Return, ast.Break, ast.Continue, ast.Assert,
+               ast.Try, ast.With)
+_BINOPS = {ast.Add: lambda a, b: a + b, ast.Sub: lambda a, b: a - b,
+           ast.Mult: lambda a, b: a * b, ast.Div: lambda a, b: a / b,
+           ast.FloorDiv: lambda a, b: a // b, ast.Mod: lambda a, b: a % b,
+           ast.Pow: lambda a, b: a ** b, ast.BitOr: lambda a, b: a | b,
+           ast.BitAnd: lambda a, b: a & b, ast.BitXor: lambda a, b: a ^ b}
+_CMPOPS = {ast.Eq: lambda a, b: a == b, ast.NotEq: lambda a, b: a != b,
+           ast.Lt: lambda a, b: a < b, ast.LtE: lambda a, b: a <= b,
+           ast.Gt: lambda a, b: a > b, ast.GtE: lambda a, b: a >= b,
+           ast.In: lambda a, b: a in b, ast.NotIn: lambda a, b: a not in b,
+           ast.Is: lambda a, b: a is b, ast.IsNot: lambda a, b: a is not b}
+
+
+def _has_unk(v, depth=0):
+    if v is _U:
+        return True
+    if depth > 6:
+        return False
+    if isinstance(v, _CfgObj):
+        return False
+    if isinstance(v, dict):
+        return any(_has_unk(k, depth + 1) or _has_unk(x, depth + 1)
+                   for k, x in v.items())
+    if isinstance(v, (list, tuple, set, frozenset)):
+        return any(_has_unk(x, depth + 1) for x in v)
+    return False
+
+
+def _plain(v):
+    return v.data if isinstance(v, _CfgObj) else v
+
+
+class _HookEval:
+    """concrete evaluation of a method of a typed dictionary class on one
+    value of it.  Outcome of `run`: None (returns), or _Raised; whatever
+    cannot be evaluated at a point where it decides the outcome raises
+    _Undecided (-> UNRECOGNISED-IDIOM, never a verdict)."""
+
+    MAX_STEPS = 50000
+    MAX_DEPTH = 6
+
+    def __init__(self, prog, cls, obj):
+        self.prog, self.cls, self.obj = prog, cls, obj
+        self.steps = 0
+
+    def run(self, f):
+        a = f.node.args
+        if not a.args:
+            raise _Undecided('%s takes no self' % f.where)
+        try:
+            self.body(f, f.node.body, {a.args[0].arg: self.obj}, 0)
+        except _Ret:
+            pass
+        except (_Brk, _Cnt):
+            raise _Undecided('loop jump outside a loop in %s' % f.where)
+        return None
+
+    # -- statements ------------------------------------------------------------
+    def body(self, f, stmts, env, d):
+        for s in stmts:
+            self.stmt(f, s, env, d)
+
+    def _tick(self, f):
+        self.steps += 1
+        if self.steps > self.MAX_STEPS:
+            raise _Undecided('%s: evaluation does not terminate within %d '
+                             'steps' % (f.where, self.MAX_STEPS))
+
+    tolerant = False      # tail mode: calls / stores under an unknown test
+                          # are havocked instead of giving up
+
+    def _decisive(self, stmts):
+        kinds = _HARD_JUMPS if self.tolerant else _JUMPS
+        return any(isinstance(n, kinds) for s in stmts for n in walk(s))
+
+    def _havoc(self, stmts, env, f=None):
+        """forget what the statements may change (they run or do not run)"""
+        def cfg_root(e):
+            while isinstance(e, (ast.Subscript, ast.Attribute)):
+                e = e.value
+            return env.get(e.id) if isinstance(e, ast.Name) and \
+                isinstance(env.get(e.id), _CfgObj) else None
+
+        def key_of(t):
+            if isinstance(t, ast.Attribute):
+                return t.attr
+            k = self.prog.fold(f.module, t.slice, f.cls) \
+                if f is not None else UNKNOWN
+            return k if isinstance(k, (str, int)) and k is not UNKNOWN \
+                else None
+
+        for s in stmts:
+            for n in walk(s):
+                for t in (n.targets if isinstance(n, ast.Assign) else
+                          [n.target] if isinstance(n, (ast.AugAssign, ast.For,
+                                                       ast.AnnAssign))
+                          else []):
+                    if isinstance(t, (ast.Subscript, ast.Attribute)):
+                        o = cfg_root(t)
+                        if o is None and self.tolerant and \
+                                not isinstance(env.get(getattr(
+                                    t.value, 'id', None)), (dict, list)):
+                            continue          # some other object
+                        k = key_of(t) if o is not None and cfg_root(
+                            t.value) is None else None
+                        if k is None:
+                            raise _Undecided('store to %s under a test which '
+                                             'cannot be evaluated' % short(t))
+                        o.data[k] = _U
+                        continue
+                    for x in walk(t):
+                        if isinstance(x, ast.Name):
+                            env[x.id] = _U
+                if isinstance(n, ast.Call):
+                    if any(isinstance(a, ast.Name) and
+                           isinstance(env.get(a.id), _CfgObj)
+                           for a in list(n.args) +
+                           [k.value for k in n.keywords]):
+                        raise _Undecided('`%s` under a test which cannot be '
+                                         'evaluated' % short(n))
+                    o = cfg_root(n.func)
+                    if o is None or not isinstance(n.func, ast.Attribute):
+                        continue
+                    if n.func.attr in ('get', 'keys', 'values', 'items',
+                                       'verify', 'as_dict', 'copy'):
+                        continue
+                    d = self.prog.fold(f.module, n.args[0], f.cls) \
+                        if f is not None and len(n.args) == 1 and \
+                        not n.keywords else UNKNOWN
+                    if n.func.attr == 'update' and isinstance(d, dict) and \
+                            cfg_root(n.func.value) is o and \
+                            isinstance(n.func.value, ast.Name):
+                        for k in d:
+                            o.data[k] = _U
+                        continue
+                    raise _Undecided('`%s` under a test which cannot be '
+                                     'evaluated' % short(n))
+
+    def stmt(self, f, s, env, d):
+        self._tick(f)
+        if isinstance(s, ast.Expr):
+            self.ev(f, s.value, env, d)
+        elif isinstance(s, ast.Assign):
+            v = self.ev(f, s.value, env, d)
+            for t in s.targets:
+                self.assign(f, t, v, env, d)
+        elif isinstance(s, ast.AnnAssign):
+            if s.value is not None:
+                self.assign(f, s.target, self.ev(f, s.value, env, d), env, d)
+        elif isinstance(s, ast.AugAssign):
+            load = ast.copy_location(ast.fix_missing_locations(
+                ast.parse(unparse(s.target), mode='eval').body), s.target)
+            cur = self.ev(f, load, env, d)
+            v = self.ev(f, s.value, env, d)
+            self.assign(f, s.target, self.binop(f, s, type(s.op), cur, v),
+                        env, d)
+        elif isinstance(s, ast.If):
+            t = self.tri(f, s.test, env, d)
+            if t is None:
+                if self._decisive(s.body) or self._decisive(s.orelse):
+                    raise _Undecided('%s: the test `%s` cannot be evaluated '
+                                     'on a shipped config and guards a raise '
+                                     '/ return / call' % (f.where,
+                                                          short(s.test)))
+                self._havoc(s.body + s.orelse, env, f)
+            else:
+                self.body(f, s.body if t else s.orelse, env, d)
+        elif isinstance(s, ast.For):
+            it = _plain(self.ev(f, s.iter, env, d))
+            if it is _U or _has_unk(it):
+                if self._decisive(s.body) or self._decisive(s.orelse):
+                    raise _Undecided('%s: what `%s` iterates over cannot be '
+                                     'evaluated' % (f.where, short(s.iter)))
+                self._havoc([s], env, f)
+                return
+            try:
+                items = list(it)
+            except TypeError:
+                raise _Raised(s, f, 'TypeError', 'not iterable: %r' % (it,))
+            broke = False
+            for x in items:
+                self._tick(f)
+                self.assign(f, s.target, x, env, d)
+                try:
+                    self.body(f, s.body, env, d)
+                except _Brk:
+                    broke = True
+                    break
+                except _Cnt:
+                    continue
+            if not broke:
+                self.body(f, s.orelse, env, d)
+        elif isinstance(s, ast.While):
+            while True:
+                self._tick(f)
+                t = self.tri(f, s.test, env, d)
+                if t is None:
+                    raise _Undecided('%s: loop test `%s` cannot be evaluated'
+                                     % (f.where, short(s.test)))
+                if not t:
+                    self.body(f, s.orelse, env, d)
+                    break
+                try:
+                    self.body(f, s.body, env, d)
+                except _Brk:
+                    break
+                except _Cnt:
+                    continue
+        elif isinstance(s, ast.Raise):
+            if s.exc is None:
+                raise _Undecided('%s: bare re-raise' % f.where)
+            e = s.exc
+            etype = dotted(e.func if isinstance(e, ast.Call) else e)
+            etype = etype.split('.')[-1] if etype else '<exception>'
+            msg = ''
+            if isinstance(e, ast.Call) and e.args:
+                try:
+                    v = self.ev(f, e.args[0], env, d)
+                    msg = '<message>' if _has_unk(v) else str(v)
+                except (_Raised, _Undecided):
+                    msg = '<message>'
+            raise _Raised(s, f, etype, msg)
+        elif isinstance(s, ast.Assert):
+            t = self.tri(f, s.test, env, d)
+            if t is None:
+                raise _Undecided('%s: `assert %s` cannot be evaluated'
+                                 % (f.where, short(s.test)))
+            if not t:
+                raise _Raised(s, f, 'AssertionError', short(s.test))
+        elif isinstance(s, ast.Return):
+            raise _Ret(self.ev(f, s.value, env, d)
+                       if s.value is not None else None)
+        elif isinstance(s, ast.Break):
+            raise _Brk()
+        elif isinstance(s, ast.Continue):
+            raise _Cnt()
+        elif isinstance(s, (ast.Pass, ast.Import, ast.ImportFrom, ast.Global,
+                            ast.Nonlocal, ast.FunctionDef)):
+            pass
+        elif isinstance(s, ast.Try):
+            self.try_(f, s, env, d)
+        elif isinstance(s, ast.Delete):
+            for t in s.targets:
+                if isinstance(t, ast.Name):
+                    env.pop(t.id, None)
+                    continue
+                base = self.ev(f, t.value, env, d) \
+                    if isinstance(t, ast.Subscript) else _U
+                key = self.ev(f, t.slice, env, d) \
+                    if isinstance(t, ast.Subscript) else _U
+                if isinstance(_plain(base), dict) and key is not _U and \
+                        not _has_unk(key):
+                    if key not in _plain(base):
+                        raise _Raised(s, f, 'KeyError', repr(key))
+                    del _plain(base)[key]
+                else:
+                    raise _Undecided('%s: `%s`' % (f.where, short(s)))
+        else:
+            raise _Undecided('%s: statement `%s` is not evaluated'
+                             % (f.where, short(s)))
+
+    def try_(self, f, s, env, d):
+        try:
+            try:
+                self.body(f, s.body, env, d)
+            except _Raised as r:
+                chain = {r.etype, 'Exception', 'BaseException'}
+                known = r.etype in _EXC_BASES
+                todo = list(_EXC_BASES.get(r.etype, ()))
+                while todo:
+                    b = todo.pop()
+                    chain.add(b)
+                    todo += _EXC_BASES.get(b, ())
+                for h in s.handlers:
+                    names = [None] if h.type is None else \
+                        [dotted(x).split('.')[-1] for x in
+                         (h.type.elts if isinstance(h.type, ast.Tuple)
+                          else [h.type])]
+                    if None in names or any(n in chain for n in names):
+                        if h.name:
+                            env[h.name] = _U
+                        self.body(f, h.body, env, d)
+                        break
+                    if not known:
+                        raise _Undecided('%s: whether `except %s` catches %s '
+                                         'is not known' % (f.where,
+                                                           short(h.type),
+                                                           r.etype))
+                else:
+                    raise
+            else:
+                self.body(f, s.orelse, env, d)
+        finally:
+            # a finally block which itself raises replaces the outcome
+            self.body(f, s.finalbody, env, d)
+
+    def assign(self, f, t, v, env, d):
+        if isinstance(t, ast.Name):
+            env[t.id] = v
+        elif isinstance(t, (ast.Tuple, ast.List)):
+            if v is _U:
+                for x in t.elts:
+                    self.assign(f, x, _U, env, d)
+                return
+            try:
+                vals = list(_plain(v))
+            except TypeError:
+                raise _Raised(t, f, 'TypeError', 'cannot unpack %r' % (v,))
+            if any(isinstance(x, ast.Starred) for x in t.elts):
+                raise _Undecided('%s: starred target' % f.where)
+            if len(vals) != len(t.elts):
+                raise _Raised(t, f, 'ValueError', 'cannot unpack %r' % (v,))
+            for x, y in zip(t.elts, vals):
+                self.assign(f, x, y, env, d)
+        elif isinstance(t, ast.Subscript):
+            base = _plain(self.ev(f, t.value, env, d))
+            key  = self.ev(f, t.slice, env, d)
+            if isinstance(base, (dict, list)) and not _has_unk(key):
+                try:
+                    base[key] = v
+                except (IndexError, TypeError) as e:
+                    raise _Raised(t, f, type(e).__name__, str(e))
+            elif base is not _U:
+                raise _Undecided('%s: store `%s`' % (f.where, short(t)))
+        elif isinstance(t, ast.Attribute):
+            base = self.ev(f, t.value, env, d)
+            if isinstance(base, _CfgObj):
+                base.data[t.attr] = v
+            elif isinstance(base, dict):
+                base[t.attr] = v
+            elif base is not _U:
+                raise _Undecided('%s: store `%s`' % (f.where, short(t)))
+        else:
+            raise _Undecided('%s: target `%s`' % (f.where, short(t)))
+
+    # -- expressions -----------------------------------------------------------
+    @staticmethod
+    def truth(v):
+        if v is _U:
+            return None
+        if isinstance(v, _CfgObj):
+            return bool(v.data)
+        if isinstance(v, (dict, list, tuple, set, frozenset)) and not v:
+            return False
+        if isinstance(v, (list, tuple, set, frozenset, dict)):
+            return True
+        try:
+            return bool(v)
+        except Exception:                                   # noqa
+            return None
+
+    def tri(self, f, e, env, d):
+        if isinstance(e, ast.BoolOp):
+            stop = isinstance(e.op, ast.Or)
+            unk = False
+            for x in e.values:
+                try:
+                    t = self.tri(f, x, env, d)
+                except _Raised:
+                    if not unk:
+                        raise
+                    t = None
+                if t is None:
+                    unk = True
+                elif t is stop:
+                    return stop
+            return None if unk else (not stop)
+        if isinstance(e, ast.UnaryOp) and isinstance(e.op, ast.Not):
+            t = self.tri(f, e.operand, env, d)
+            return None if t is None else (not t)
+        return self.truth(self.ev(f, e, env, d))
+
+    def binop(self, f, node, op, a, b):
+        if a is _U or b is _U or _has_unk(a) or _has_unk(b) or \
+                op not in _BINOPS:
+            return _U
+        try:
+            return _BINOPS[op](_plain(a), _plain(b))
+        except (TypeError, ValueError, ZeroDivisionError, KeyError) as e:
+            raise _Raised(node, f, type(e).__name__, str(e))
+        except Exception:                                   # noqa
+            return _U
+
+    def getattr_(self, f, node, base, attr):
+        if isinstance(base, _CfgObj):
+            for k in self.prog.mro(base.td.cls):
+                if attr in k.consts:
+                    v = self.prog.fold(k.module, k.consts[attr], k)
+                    return _U if v is UNKNOWN else v
+            if attr in base.td.schema:
+                return base.data.get(attr)
+            if attr in base.data:
+                return base.data[attr]
+            return _U
+        if isinstance(base, dict):
+            return base.get(attr, _U) if isinstance(attr, str) else _U
+        return _U
+
+    def ev(self, f, e, env, d):                             # noqa: C901
+        self._tick(f)
+        if isinstance(e, ast.Constant):
+            return e.value
+        if isinstance(e, ast.Name):
+            if e.id in env:
+                return env[e.id]
+            v = self.prog.fold(f.module, e, f.cls)
+            return _U if v is UNKNOWN else v
+        if isinstance(e, ast.Attribute):
+            if not (isinstance(e.value, ast.Name) and e.value.id in env):
+                v = self.prog.fold(f.module, e, f.cls)
+                if v is not UNKNOWN:
+                    return v
+            return self.getattr_(f, e, self.ev(f, e.value, env, d), e.attr)
+        if isinstance(e, ast.Subscript):
+            base = self.ev(f, e.value, env, d)
+            if isinstance(e.slice, ast.Slice):
+                lo, hi, st = [None if x is None else self.ev(f, x, env, d)
+                              for x in (e.slice.lower, e.slice.upper,
+                                        e.slice.step)]
+                if base is _U or _has_unk([lo, hi, st]) or \
+                        not isinstance(base, (list, tuple, str)):
+                    return _U
+                try:
+                    return base[lo:hi:st]
+                except (TypeError, ValueError) as x:
+                    raise _Raised(e, f, type(x).__name__, str(x))
+            key = self.ev(f, e.slice, env, d)
+            if base is _U or _has_unk(key):
+                return _U
+            try:
+                return _plain(base)[key]
+            except (KeyError, IndexError, TypeError) as x:
+                raise _Raised(e, f, type(x).__name__, '%s: %s'
+                              % (short(e), x))
+        if isinstance(e, ast.BoolOp):
+            stop = isinstance(e.op, ast.Or)
+            v = None
+            for x in e.values:
+                v = self.ev(f, x, env, d)
+                t = self.truth(v)
+                if t is None:
+                    return _U
+                if t is stop:
+                    return v
+            return v
+        if isinstance(e, ast.UnaryOp):
+            if isinstance(e.op, ast.Not):
+                t = self.tri(f, e.operand, env, d)
+                return _U if t is None else (not t)
+            v = self.ev(f, e.operand, env, d)
+            if v is _U or not isinstance(v, (int, float)):
+                return _U
+            return -v if isinstance(e.op, ast.USub) else \
+                +v if isinstance(e.op, ast.UAdd) else ~v
+        if isinstance(e, ast.BinOp):
+            return self.binop(f, e, type(e.op), self.ev(f, e.left, env, d),
+                              self.ev(f, e.right, env, d))
+        if isinstance(e, ast.Compare):
+            left = self.ev(f, e.left, env, d)
+            for op, c in zip(e.ops, e.comparators):
+                right = self.ev(f, c, env, d)
+                if left is _U or right is _U or type(op) not in _CMPOPS:
+                    return _U
+                if isinstance(op, (ast.In, ast.NotIn)):
+                    if _has_unk(left) or _has_unk(right):
+                        return _U
+                elif not isinstance(op, (ast.Is, ast.IsNot)) and (
+                        _has_unk(left) or _has_unk(right)):
+                    return _U
+                try:
+                    r = _CMPOPS[type(op)](_plain(left), _plain(right))
+                except TypeError as x:
+                    raise _Raised(e, f, 'TypeError', '%s: %s' % (short(e), x))
+                if not r:
+                    return False
+                left = right
+            return True
+        if isinstance(e, ast.IfExp):
+            t = self.tri(f, e.test, env, d)
+            if t is None:
+                return _U
+            return self.ev(f, e.body if t else e.orelse, env, d)
+        if isinstance(e, (ast.List, ast.Tuple, ast.Set)):
+            if any(isinstance(x, ast.Starred) for x in e.elts):
+                return _U
+            vals = [self.ev(f, x, env, d) for x in e.elts]
+            if isinstance(e, ast.List):
+                return vals
+            if isinstance(e, ast.Tuple):
+                return tuple(vals)
+            try:
+                return _U if _has_unk(vals) else set(vals)
+            except TypeError:
+                return _U
+        if isinstance(e, ast.Dict):
+            out = {}
+            for k, v in zip(e.keys, e.values):
+                if k is None:
+                    return _U
+                kk = self.ev(f, k, env, d)
+                if _has_unk(kk):
+                    return _U
+                try:
+                    out[kk] = self.ev(f, v, env, d)
+                except TypeError:
+                    return _U
+            return out
+        if isinstance(e, (ast.ListComp, ast.SetComp, ast.GeneratorExp,
+                          ast.DictComp)):
+            return self.comp(f, e, env, d)
+        if isinstance(e, ast.JoinedStr):
+            out = ''
+            for p in e.values:
+                if isinstance(p, ast.Constant):
+                    out += str(p.value)
+                    continue
+                v = self.ev(f, p.value, env, d)
+                if _has_unk(v) or p.format_spec is not None or \
+                        isinstance(v, _CfgObj):
+                    return _U
+                out += repr(v) if p.conversion == 114 else str(v)
+            return out
+        if isinstance(e, ast.NamedExpr):
+            v = self.ev(f, e.value, env, d)
+            self.assign(f, e.target, v, env, d)
+            return v
+        if isinstance(e, ast.Call):
+            return self.call(f, e, env, d)
+        return _U
+
+    def comp(self, f, e, env, d):
+        out = []
+        unk = []
+
+        def rec(i, env2):
+            if i == len(e.generators):
+                if isinstance(e, ast.DictComp):
+                    out.append((self.ev(f, e.key, env2, d),
+                                self.ev(f, e.value, env2, d)))
+                else:
+                    out.append(self.ev(f, e.elt, env2, d))
+                return
+            g = e.generators[i]
+            it = _plain(self.ev(f, g.iter, env2, d))
+            if it is _U or _has_unk(it) or g.is_async:
+                unk.append(1)
+                return
+            try:
+                items = list(it)
+            except TypeError:
+                raise _Raised(e, f, 'TypeError', 'not iterable: %r' % (it,))
+            for x in items:
+                self._tick(f)
+                self.assign(f, g.target, x, env2, d)
+                ok = True
+                for c in g.ifs:
+                    t = self.tri(f, c, env2, d)
+                    if t is None:
+                        unk.append(1)
+                        return
+                    if not t:
+                        ok = False
+                        break
+                if ok:
+                    rec(i + 1, env2)
+        rec(0, dict(env))
+        if unk:
+            return _U
+        try:
+            if isinstance(e, ast.DictComp):
+                return _U if _has_unk([k for k, _ in out]) else dict(out)
+            if isinstance(e, ast.SetComp):
+                return _U if _has_unk(out) else set(out)
+        except TypeError:
+            return _U
+        return out
+
+    # -- calls -----------------------------------------------------------------
+    def args_of(self, f, c, env, d):
+        if any(isinstance(a, ast.Starred) for a in c.args) or \
+                any(k.arg is None for k in c.keywords):
+            return None, None
+        return ([self.ev(f, a, env, d) for a in c.args],
+                {k.arg: self.ev(f, k.value, env, d) for k in c.keywords})
+
+    def invoke(self, f, c, g, recv, args, kw, env, d):
+        """interpret package function g"""
+        if d >= self.MAX_DEPTH:
+            raise _Undecided('%s: call depth' % f.where)
+        a = g.node.args
+        deco = [dotted(x) for x in g.node.decorator_list]
+        params = [x.arg for x in a.posonlyargs + a.args]
+        vals = list(args)
+        if g.cls is not None and g.parent is None and \
+                'staticmethod' not in deco:
+            vals = [_U if 'classmethod' in deco else recv] + vals
+        if any(x not in ('staticmethod', 'classmethod') for x in deco):
+            raise _Undecided('%s: decorated callee %s' % (f.where, g.where))
+        new = dict(env) if g.parent is not None else {}
+        if len(vals) > len(params):
+            if not a.vararg:
+                raise _Raised(c, f, 'TypeError', 'too many arguments for %s'
+                              % g.qual)
+            new[a.vararg.arg] = tuple(vals[len(params):])
+            vals = vals[:len(params)]
+        elif a.vararg:
+            new[a.vararg.arg] = ()
+        for p, v in zip(params, vals):
+            new[p] = v
+        dflt = dict(zip(params[len(params) - len(a.defaults):], a.defaults))
+        for x, dv in zip(a.kwonlyargs, a.kw_defaults):
+            params.append(x.arg)
+            if dv is not None:
+                dflt[x.arg] = dv
+        extra = {}
+        for k, v in kw.items():
+            if k in params:
+                new[k] = v
+            elif a.kwarg:
+                extra[k] = v
+            else:
+                raise _Raised(c, f, 'TypeError', 'unexpected keyword %s' % k)
+        if a.kwarg:
+            new[a.kwarg.arg] = extra
+        for p in params:
+            if p not in new:
+                if p not in dflt:
+                    raise _Raised(c, f, 'TypeError', 'missing argument %s of '
+                                  '%s' % (p, g.qual))
+                new[p] = self.ev(g, dflt[p], {}, d + 1)
+        try:
+            self.body(g, g.node.body, new, d + 1)
+        except _Ret as r:
+            return r.value
+        return None
+
+    def call(self, f, c, env, d):                           # noqa: C901
+        fn = c.func
+        args, kw = self.args_of(f, c, env, d)
+        escapes = args is None or any(
+            isinstance(v, _CfgObj) for v in list(args) + list(kw.values()))
+
+        def unknown(recv=None):
+            if self.tolerant:
+                return _U
+            if escapes or isinstance(recv, _CfgObj):
+                raise _Undecided('%s: the config is handed to `%s`, which is '
+                                 'not evaluated' % (f.where, short(fn)))
+            return _U
+
+        if args is None:
+            return unknown()
+        if isinstance(fn, ast.Name) and fn.id not in env:
+            g = self.prog.resolve_callable(f, fn, self.cls)
+            r = self.prog.lookup(f.module, fn.id)
+            if g is not None and not (r and r[0] == 'class'):
+                return self.invoke(f, c, g, None, args, kw, env, d)
+            if r and r[0] == 'class':
+                return unknown()
+            if fn.id == 'isinstance' and len(args) == 2 and not kw:
+                t = c.args[1]
+                ts = t.elts if isinstance(t, ast.Tuple) else [t]
+                if all(isinstance(x, ast.Name) and x.id in _PY_CLASSES
+                       for x in ts) and args[0] is not _U and \
+                        not isinstance(args[0], _CfgObj):
+                    return isinstance(args[0],
+                                      tuple(_PY_CLASSES[x.id] for x in ts))
+                return _U
+            if fn.id == 'getattr' and len(args) in (2, 3) and \
+                    isinstance(args[1], str):
+                v = self.getattr_(f, c, args[0], args[1])
+                return v
+            if fn.id == 'print':
+                return None
+            if fn.id in _PY_FUNCS:
+                if _has_unk(args) or _has_unk(kw) or 'key' in kw:
+                    return _U
+                try:
+                    return _PY_FUNCS[fn.id](*[_plain(a) for a in args], **kw)
+                except (TypeError, ValueError) as x:
+                    raise _Raised(c, f, type(x).__name__, '%s: %s'
+                                  % (short(c), x))
+            return unknown()
+        if isinstance(fn, ast.Attribute):
+            # super().m(...)
+            if isinstance(fn.value, ast.Call) and \
+                    isinstance(fn.value.func, ast.Name) and \
+                    fn.value.func.id == 'super':
+                g = _find_method(self.prog, self.cls, fn.attr,
+                                 after=f.cls) if f.cls is not None else None
+                me = env.get(f.node.args.args[0].arg) \
+                    if f.node.args.args else None
+                if g is None:
+                    # the implementation of radical.utils: `_verify` is a
+                    # no-op, `verify` is the typed check (mirrored elsewhere)
+                    # followed by the hook
+                    if fn.attr in ('_verify', '__init__'):
+                        return None
+                    if fn.attr == 'verify' and isinstance(me, _CfgObj):
+                        self.super_verify.append(c)
+                        return me
+                    return unknown(me)
+                return self.invoke(f, c, g, me, args, kw, env, d)
+            recv = self.ev(f, fn.value, env, d)
+            if isinstance(recv, _CfgObj):
+                if self.tolerant and fn.attr == 'verify':
+                    return recv          # typed check and hooks: R17.1 / above
+                g = _find_method(self.prog, recv.td.cls, fn.attr)
+                if g is not None:
+                    return self.invoke(f, c, g, recv, args, kw, env, d)
+                if fn.attr in _PURE_METHODS[dict]:
+                    return self.pure(f, c, recv.data, fn.attr, args, kw)
+                if fn.attr == 'as_dict' and not args and not kw:
+                    return json_copy(recv.data)
+                return unknown(recv)
+            if recv is _U:
+                g = self.prog.resolve_callable(f, fn, self.cls)
+                own = isinstance(fn.value, ast.Name) and \
+                    f.cls is not None and bool(f.node.args.args) and \
+                    fn.value.id == f.node.args.args[0].arg
+                if g is not None and (own or not (
+                        isinstance(fn.value, ast.Name) and
+                        fn.value.id in env)):
+                    return self.invoke(f, c, g, _U if own else None, args,
+                                       kw, env, d)
+                return unknown()
+            for t, names in _PURE_METHODS.items():
+                if type(recv) is t and fn.attr in names:
+                    return self.pure(f, c, recv, fn.attr, args, kw)
+            return unknown()
+        return unknown()
+
+    super_verify = ()
+
+    def pure(self, f, c, recv, name, args, kw):
+        if _has_unk(args) or _has_unk(kw):
+            if name in ('get', 'setdefault', 'pop', 'append', 'add', 'update',
+                        'extend', 'insert') and not _has_unk(args[:1]) and \
+                    not kw and name not in ('update', 'extend'):
+                pass
+            else:
+                return _U
+        try:
+            r = getattr(recv, name)(*[_plain(a) for a in args], **kw)
+        except (TypeError, ValueError, KeyError, IndexError) as x:
+            raise _Raised(c, f, type(x).__name__, '%s: %s' % (short(c), x))
+        if name in ('keys', 'values', 'items'):
+            return list(r)
+        return r
+
+
+_src_cache = {}
+
+
+def _source_methods(c):
+    """methods of class c which its source text defines but the program model
+    of this view lacks: the normalised views drop a new method nothing in the
+    package refers to - an override radical.utils calls (`_verify`) is such a
+    method, and it runs all the same"""
+    key = id(c.module)
+    if key not in _src_cache:
+        try:
+            tree = ast.parse(c.module.src)
+        except (SyntaxError, ValueError, TypeError):
+            tree = None
+        _src_cache[key] = (c.module, tree, {})
+    _, tree, memo = _src_cache[key]
+    if c.name not in memo:
+        out = {}
+        for s in (tree.body if tree is not None else []):
+            if isinstance(s, ast.ClassDef) and s.name == c.name:
+                for x in s.body:
+                    if isinstance(x, (ast.FunctionDef, ast.AsyncFunctionDef)) \
+                            and x.name not in c.methods:
+                        out[x.name] = _FuncInfo(
+                            x.name, c.name + '.' + x.name, c.module, c, x)
+        memo[c.name] = out
+    return memo[c.name]
+
+
+def _find_method(prog, c, name, after=None):
+    mro = prog.mro(c)
+    if after is not None and after in mro:
+        mro = mro[mro.index(after) + 1:]
+    for k in mro:
+        if name in k.methods:
+            return k.methods[name]
+        m = _source_methods(k)
+        if name in m:
+            return m[name]
+    return None
+
+
+def verify_hooks(prog, td):
+    """[(kind, FuncInfo)] the package's own code `td.cls().verify()` runs:
+    an overriding `verify` (which has to reach the implementation of
+    radical.utils through super()) and the `_verify` hook"""
+    key = (id(prog), td.cls.module.rel, td.cls.name)
+    hit = _hook_cache.get(key)
+    if hit is not None:
+        return hit[1]
+    out = []
+    v = _find_method(prog, td.cls, 'verify')
+    if v is not None:
+        sup = [c for c in calls_in(v.node)
+               if isinstance(c.func, ast.Attribute) and c.func.attr == 'verify'
+               and isinstance(c.func.value, ast.Call)
+               and call_name(c.func.value) == 'super']
+        if len(sup) != 1 or _find_method(prog, td.cls, 'verify', after=v.cls):
+            raise AnalysisError('UNRECOGNISED-IDIOM %s overrides verify() '
+                                'without exactly one super().verify() which '
+                                'reaches radical.utils' % v.where)
+        out.append(('verify', v))
+    h = _find_method(prog, td.cls, '_verify')
+    if h is not None:
+        out.append(('_verify', h))
+    _hook_cache[key] = (prog, out)
+    return out
+
+
+_hook_cache = {}
+
+
+def nested_tds(prog, td, data, path=''):
+    """[(path, TD, value)] the typed dictionaries verify() descends into (the
+    value is what the nested class is instantiated with: defaults + data)"""
+    out = []
+    for k, v in data.items():
+        t = td.schema.get(k)
+        if v is None or t is None:
+            continue
+        if isinstance(t, tuple) and t[0] == 'td' and isinstance(v, dict):
+            sub = TD.of(prog, t[1])
+            val = td_init(prog, sub, v)
+            out.append((path + str(k), sub, val))
+            out += nested_tds(prog, sub, val, path + str(k) + '.')
+        elif isinstance(t, tuple) and t[0] == 'dict' and isinstance(v, dict) \
+                and isinstance(t[2], tuple) and t[2][0] == 'td':
+            sub = TD.of(prog, t[2][1])
+            for kk, vv in v.items():
+                if isinstance(vv, dict):
+                    val = td_init(prog, sub, vv)
+                    p = '%s.%s' % (path + str(k), kk)
+                    out.append((p, sub, val))
+                    out += nested_tds(prog, sub, val, p + '.')
+        elif isinstance(t, tuple) and t[0] == 'list' and isinstance(v, list) \
+                and isinstance(t[1], tuple) and t[1][0] == 'td':
+            sub = TD.of(prog, t[1][1])
+            for i, vv in enumerate(v):
+                if isinstance(vv, dict):
+                    val = td_init(prog, sub, vv)
+                    p = '%s[%d]' % (path + str(k), i)
+                    out.append((p, sub, val))
+                    out += nested_tds(prog, sub, val, p + '.')
+    return out
+
+
+def run_hooks(prog, ctx, m):
+    """evaluate every hook verify() runs for the merged config m:
+    (n hooks evaluated, None | (path, kind, FuncInfo, _Raised))"""
+    n = 0
+    todo = [('', ctx.td, m)]
+    if any(verify_hooks(prog, TD.of(prog, c)) for c in ctx.nested_classes):
+        # children are verified (and their hooks run) before the parent's hook
+        todo = nested_tds(prog, ctx.td, m) + todo
+    for path, td, val in todo:
+        for kind, h in verify_hooks(prog, td):
+            n += 1
+            ev = _HookEval(prog, td.cls, _CfgObj(json_copy(val), td))
+            ev.super_verify = []
+            try:
+                ev.run(h)
+            except _Raised as r:
+                return n, (path, kind, h, r)
+            except _Undecided as u:
+                raise AnalysisError('UNRECOGNISED-IDIOM R17.8: %s of %s '
+                                    'cannot be evaluated on a shipped '
+                                    'config: %s' % (kind, td.cls.where, u))
+            except RecursionError:
+                raise AnalysisError('UNRECOGNISED-IDIOM R17.8: %s recursion'
+                                    % h.where)
+    return n, None
+
+
+def _nested_classes(prog, td, seen=None):
+    seen = seen if seen is not None else []
+
+    def of(t):
+        if isinstance(t, tuple) and t[0] == 'td':
+            if t[1] not in seen:
+                seen.append(t[1])
+                _nested_classes(prog, TD.of(prog, t[1]), seen)
+        elif isinstance(t, tuple):
+            for x in t[1:]:
+                of(x)
+    for t in td.schema.values():
+        of(t)
+    return seen
+
+
+def check_hooks(prog, rep, ctx, where, res, schema, m, loc, rid='R17.8'):
+    if not ctx.merge.verify:
+        return
+    n, hit = run_hooks(prog, ctx, m)
+    what = '%s x %s: ' % (res, schema)
+    if hit is None:
+        rep.ok(rid, where, what + ('passes the %d verification hook(s) '
+                                   'verify() runs' % n if n else 'verify() '
+               'runs no hook of the package (typed check only)'), loc)
+        return
+    path, kind, h, r = hit
+    rep.bad(rid, where, 'hook:%s:%s:%s' % (schema, h.qual, path),
+            '%s: %s (run by rcfg.verify() in Session.get_resource_config and '
+            'in _prepare_pilot%s) raises %s(%r) at `%s` for the config this '
+            'shipped platform resolves to under schema %r: the platform '
+            'cannot be used although its resource manager, launch methods, '
+            'scheduler and executor all exist'
+            % (res, h.where, ' for the nested value %s' % path if path else
+               '', r.etype, r.msg, short(r.node), schema),
+            r.func.loc(r.node),
+            history='PilotDescription(resource=%r, access_schema=%r): '
+            'Session.get_resource_config raises %s(%r), no pilot can be '
+            'submitted to this platform' % (res, schema, r.etype, r.msg))
+
+
+def merge_tail(ctx):
+    """the statements of get_resource_config which follow the merge (None if
+    the merge is not a statement of the function's top level)"""
+    f = ctx.merge.func
+    for i, s in enumerate(f.node.body):
+        if any(isinstance(c, ast.Call) and call_name(c).endswith('dict_merge')
+               for c in walk(s)):
+            return f.node.body[i + 1:] if isinstance(s, (ast.Expr,
+                                                         ast.Assign)) else None
+    return None
+
+
+def check_tail(prog, rep, ctx, where, res, schema, m, loc, rid='R17.8'):
+    """what get_resource_config does to the merged config after the merge,
+    evaluated on it: an explicit raise / assert which is reached for a shipped
+    config.  Whatever depends on anything but the merged config (the session,
+    the resource manager class) is not evaluated; if that decides the
+    outcome, nothing is concluded."""
+    tail = ctx.tail
+    if not tail:
+        return
+    f = ctx.merge.func
+    ev = _HookEval(prog, f.cls, None)
+    ev.tolerant = True
+    # every local of the function is unknown unless bound below (a local must
+    # never be taken for a module-level constant of the same name)
+    env = {x.id: _U for x in walk(f.node)
+           if isinstance(x, ast.Name) and isinstance(x.ctx, ast.Store)}
+    env.update({p: _U for p in f.params})
+    env[ctx.merge.rvar] = _CfgObj(json_copy(m), ctx.td)
+    a = f.node.args.args
+    if len(a) >= 2:
+        env[a[1].arg] = res
+    if len(a) >= 3:
+        env[a[2].arg] = schema
+    try:
+        ev.body(f, tail, env, 0)
+    except _Ret:
+        pass
+    except (_Undecided, _Brk, _Cnt, RecursionError):
+        return
+    except _Raised as r:
+        if not isinstance(r.node, (ast.Raise, ast.Assert)):
+            return
+        rep.bad(rid, where, 'tail:%s:%s' % (schema, r.func.qual),
+                '%s: after merging schema %r %s raises %s(%r) at `%s` for '
+                'the config this shipped platform resolves to: the platform '
+                'cannot be used although its resource manager, launch '
+                'methods, scheduler and executor all exist'
+                % (res, schema, f.where, r.etype, r.msg, short(r.node)),
+                r.func.loc(r.node),
+                history='PilotDescription(resource=%r, access_schema=%r): '
+                'Session.get_resource_config raises %s(%r), no pilot can be '
+                'submitted to this platform' % (res, schema, r.etype, r.msg))
+        return
+    rep.ok(rid, where, '%s x %s: nothing get_resource_config does after the '
+           'merge raises for the merged config' % (res, schema), loc)
+
+
 def run(prog, rep, tier):
     rep.decided = ('every entry of every shipped resource_*.json, under each '
         'of its schemas and after the merge + typed verification that '
@@ -4572,12 +5721,20 @@ def run(prog, rep, tier):
         'only to objects created in the call - never to a stored entry, to a '
         'container the per-call config shares with it or with the class-level '
         'defaults, or to the config one bulk shares among its pilots - so '
-        'that resolution and sizing do not depend on earlier calls.')
+        'that resolution and sizing do not depend on earlier calls; the '
+        'verification hooks of the package which rcfg.verify() runs '
+        '(ResourceConfig._verify / an overriding verify, hooks of nested '
+        'typed dictionaries) and the statements of get_resource_config after '
+        'the merge raise for no shipped resource x schema config (evaluated '
+        'concretely on the merged config).')
     rep.undecided = ('minimality of the node count for all numeric inputs '
         '(arithmetic is not evaluated); what the batch system makes of the '
         'job description; user-supplied resource configs in ~/.radical; what '
         'the pilot launchers (`launcher.launch_pilots(rcfg, ..)`, receiver '
-        'not resolvable) do to the config they are handed.')
+        'not resolvable) do to the config they are handed; raises after '
+        'the merge whose condition depends on anything but the merged config '
+        '(the session, the resource manager class, the pilot description - '
+        'e.g. a demand _prepare_pilot makes of a config for one pilot size).')
     rep.assumptions = [
         'radical.utils semantics as of the installed version: read_json strips '
         'whole-line # comments only; dict_merge(a, b, OVERWRITE) merges '
@@ -4603,6 +5760,15 @@ def run(prog, rep, tier):
         '(all of them) or which themselves index the entry - split is '
         'inverted by joining, so one entry always receives one value - and '
         'the entry is not read before the store',
+        'R17.6: a memo (a store `M[k] = v` into session state which holds no '
+        'configuration) is history independent if k names every parameter '
+        'of the call, v is a private deep copy and M is read only through '
+        'deep copies; creating an empty slot under a constant key of such '
+        'state (setdefault) is the same for every call',
+        'R17.8: verify() of radical.utils runs the typed check, verifies '
+        'nested typed dictionaries (their hooks first) and then calls the '
+        '`_verify` hook; hooks are evaluated concretely, a hook whose outcome '
+        'depends on something that cannot be evaluated is an analysis error',
     ]
     ctx = build_ctx(prog, rep)
     r17_1(prog, rep, ctx)
@@ -4749,6 +5915,78 @@ _PS_CALL = ("        size = self._get_pilot_size(requested_nodes, requested_core
 _PS_RET = ("        return PilotSize(cores_per_node, avail_cores, n_nodes,\n"
            "                         n_total * avail_cores or n_cores,\n"
            "                         n_total * avail_gpus  or n_gpus)\n")
+
+
+# round 6 -----------------------------------------------------------------------
+# R17.8: verification hooks of the typed dictionaries (there is none for
+# ResourceConfig / AccessSchema on the unchanged tree)
+_RC_END = "        TASK_POST_EXEC         : list()      ,\n    }\n"
+_AS_END = ("        JOB_MANAGER_HOP     : None,\n"
+           "        FILESYSTEM_ENDPOINT : None,\n    }\n")
+_HK = "\n    # ----------------------------------------------------------------\n    #\n"
+
+
+def _rc_hook(body, name='_verify'):
+    return (_RCF, _RC_END, _RC_END + _HK + "    def %s(self):\n\n" % name + body)
+
+
+def _as_hook(body):
+    return (_RCF, _AS_END, _AS_END + _HK + "    def _verify(self):\n\n" + body)
+
+
+_REQ_LOOP = ("        for key in [RESOURCE_MANAGER, AGENT_SCHEDULER, AGENT_SPAWNER,\n"
+             "                    LAUNCH_METHODS%s]:\n"
+             "            if not self.get(key):\n"
+             "                raise ValueError('resource config \"%%s\": \"%%s\" is not set'\n"
+             "                                 %% (self.get(LABEL), key))\n")
+_REQ_HELPER = ("    def _require(self, *keys):\n\n"
+               "        for key in keys:\n"
+               "            if self.get(key) in (None, '', 0, {}, []):\n"
+               "                raise ValueError('%s: %s is not set' % (self.label, key))\n\n")
+
+
+_GRC = "    def get_resource_config(self, resource, schema=None):\n"
+_VER = "        rcfg.verify()\n\n        return rcfg\n"
+
+
+def _grc_helper(key):
+    return (_SES, _GRC,
+            "    @staticmethod\n    def _check_rcfg(cfg, label):\n\n"
+            "        if cfg.get('%s'):\n            return cfg\n\n"
+            "        raise ValueError('%%s: %s is not set' %% label)\n\n\n"
+            "    # --------------------------------------------------------------------------\n"
+            "    #\n" % (key, key) + _GRC)
+
+
+
+# R17.6: a memo of merged configs in Session.get_resource_config
+_SLOT = "                            'pilot_sandbox'    : dict(),\n"
+
+
+def _memo(key, out, fill, slot=True):
+    """memo `self._cache['rcfg']` keyed by `key`; hits are returned as
+    `out % <memo read>`, misses filled with `fill`"""
+    e = [(_SES, _SLOT, _SLOT + "                            'rcfg'             : dict(),\n")] \
+        if slot else []
+    pre = "" if slot else "        self._cache.setdefault('rcfg', dict())\n"
+    return e + [
+        (_SES, _COPY, pre + "        with self._cache_lock:\n"
+                      "            if %s in self._cache['rcfg']:\n"
+                      "                return %s\n\n"
+                      % (key, out % ("self._cache['rcfg'][%s]" % key)) + _COPY),
+        (_SES, _VER, "        rcfg.verify()\n\n        with self._cache_lock:\n"
+                     "            self._cache['rcfg'][%s] = %s\n\n        return rcfg\n"
+                     % (key, fill))]
+
+
+def _memo_alias(key, fill='copy.deepcopy(rcfg)', ret='rcfg',
+                home="self._cache.setdefault('rcfg', dict())"):
+    return [(_SES, _COPY, "        memo = %s\n        if %s in memo:\n"
+                          "            return copy.deepcopy(memo[%s])\n\n"
+                          % (home, key, key) + _COPY),
+            (_SES, _VER, "        rcfg.verify()\n\n        memo[%s] = %s\n\n"
+                         "        return %s\n" % (key, fill, ret))]
+
 
 
 MUTATIONS = [
@@ -4962,6 +6200,73 @@ MUTATIONS = [
                "        allocated_cores      = size.cores\n"
                "        allocated_gpus       = size.gpus\n"),
         (_PML, _PS_DEF, _ps_helper(_PS_RET.replace('PilotSize(cores_per_node, avail_cores,', 'PilotSize(avail_cores, cores_per_node,')))]),
+    # ---- round 6: verification hooks (R17.8) ----------------------------------
+    dict(name='i6 "fail early" hook requires cores_per_node, which 8 shipped platforms leave open', rules=('R17.8',), edits=[
+        _rc_hook(_REQ_LOOP % ', CORES_PER_NODE')]),
+    dict(name='i6 variant: the same requirement spelled with attribute reads and `or`', rules=('R17.8',), edits=[
+        _rc_hook("        if not self.resource_manager or not self.cores_per_node:\n"
+                 "            raise ValueError('incomplete resource config %s' % self.label)\n")]),
+    dict(name='i6 variant: requirement extracted into a helper method', rules=('R17.8',), edits=[
+        _rc_hook("        self._require(RESOURCE_MANAGER, LAUNCH_METHODS)\n"
+                 "        self._require(CORES_PER_NODE)\n\n\n" + _HK.lstrip('\n') + _REQ_HELPER)]),
+    dict(name='i6 variant: hook asserts a positive memory size (57 platforms do not configure one)', rules=('R17.8',), edits=[
+        _rc_hook("        assert self.mem_per_node > 0, 'mem_per_node missing'\n")]),
+    dict(name='i6 variant: hook demands a default queue via a comprehension', rules=('R17.8',), edits=[
+        _rc_hook("        missing = [k for k in (RESOURCE_MANAGER, DEFAULT_QUEUE) if not self[k]]\n"
+                 "        if missing:\n"
+                 "            raise ValueError('%s: missing %s' % (self.label, missing))\n")]),
+    dict(name='i6 sibling: verify() overridden, demands cores_per_node after the typed check', rules=('R17.8',), edits=[
+        _rc_hook("        super().verify()\n\n"
+                 "        if self.cores_per_node < 1:\n"
+                 "            raise ValueError('%s: cores_per_node' % self.label)\n\n"
+                 "        return self\n", name='verify')]),
+    dict(name='i6 sibling: hook of the nested AccessSchema demands a job_manager_hop', rules=('R17.8',), edits=[
+        _as_hook("        for key in (JOB_MANAGER_ENDPOINT, JOB_MANAGER_HOP):\n"
+                 "            if self.get(key) is None:\n"
+                 "                raise ValueError('access schema: %s is not set' % key)\n")]),
+    dict(name='i6 sibling: get_resource_config itself demands cores_per_node after the merge', rules=('R17.8',), edits=[
+        (_SES, _LBL, "        rcfg.label = resource\n\n"
+                     "        if not rcfg.cores_per_node:\n"
+                     "            raise ValueError('%s: cores_per_node is not set' % resource)\n\n"
+                     "        rcfg.verify()\n")]),
+    dict(name='i6 sibling: the demand through a local, a default queue this time', rules=('R17.8',), edits=[
+        (_SES, _VER, "        rcfg.verify()\n\n"
+                     "        queue = rcfg.get('default_queue')\n"
+                     "        if queue is None or queue == '':\n"
+                     "            raise RuntimeError('no default queue for %s' % rcfg.label)\n\n"
+                     "        return rcfg\n")]),
+    dict(name='i6 sibling: the demand as an assert next to the RM lookup', rules=('R17.8',), edits=[
+        (_SES, "            rm = ResourceManager.get_manager(rcfg['resource_manager'])\n",
+               "            rm = ResourceManager.get_manager(rcfg['resource_manager'])\n"
+               "            assert rcfg['cores_per_node'] > 0, 'node size of %s' % resource\n")]),
+    dict(name='i6 sibling: the demand in a new static helper of the session', rules=('R17.8',), edits=[
+        _grc_helper('cores_per_node'),
+        (_SES, _VER, "        rcfg.verify()\n\n        return self._check_rcfg(rcfg, resource)\n")]),
+    # ---- round 6: further variants of the i1..i5 slips at sibling sites ---------
+    dict(name='i5 variant: memo keyed by the resource only, deep copies in and out', rules=('R17.6',), edits=
+        _memo('resource', 'copy.deepcopy(%s)', 'copy.deepcopy(rcfg)')),
+    dict(name='i5 variant: memo keyed by the schema only, through a local alias', rules=('R17.6',), edits=
+        _memo_alias('schema')),
+    dict(name='i5 variant: complete key, but the memo entry is handed out without a copy', rules=('R17.6',), edits=
+        _memo('(resource, schema)', '%s', 'copy.deepcopy(rcfg)')),
+    dict(name='i5 variant: complete key, but the memo keeps the object it returns', rules=('R17.6',), edits=
+        _memo('(resource, schema)', 'copy.deepcopy(%s)', 'rcfg')),
+    dict(name='i5 variant: memo in a lazily created attribute, keyed by the label only', rules=('R17.6',), edits=
+        _memo_alias('res', fill='rcfg', ret='ResourceConfig(from_dict=rcfg)',
+                    home="self.__dict__.setdefault('_merged_rcfgs', dict())")),
+    dict(name='i4 variant: usable GPUs per node written back into the config the bulk shares', rules=('R17.6',), edits=[
+        (_PML, "            avail_gpus_per_node -= len(blocked_gpus)\n",
+               "            avail_gpus_per_node -= len(blocked_gpus)\n            rcfg['gpus_per_node'] = avail_gpus_per_node\n")]),
+    dict(name='i4 variant: SMT folded into the shared config through update()', rules=('R17.6',), edits=[
+        (_PML, _SMT, _SMT + "            rcfg.update({'cores_per_node': cores_per_node})\n")]),
+    dict(name='i2 sibling: scheduler table lists CONTINUOUS twice, CONTINUOUS_JSRUN lost', rules=('R17.1',), edits=[
+        (_SCB, "            SCHEDULER_NAME_CONTINUOUS_JSRUN    : ContinuousJsrun,", "            SCHEDULER_NAME_CONTINUOUS          : ContinuousJsrun,")]),
+    dict(name='i2 sibling: executor table lists FLUX twice, POPEN lost', rules=('R17.1',), edits=[
+        (_EXB, "            EXECUTING_NAME_POPEN : Popen,", "            EXECUTING_NAME_FLUX  : Popen,")]),
+    dict(name='i1 sibling: core term of the node estimate floor-divided', rules=('R17.5',), edits=[
+        (_PML, "                requested_nodes = requested_cores / avail_cores_per_node", "                requested_nodes = requested_cores // avail_cores_per_node")]),
+    dict(name='i3 sibling: scheduler name in lower case in a shipped config', rules=('R17.1',), edits=[
+        (_UVA, '"agent_scheduler"             : "CONTINUOUS",', '"agent_scheduler"             : "continuous",')]),
 ]
 
 SILENT = [
@@ -5199,4 +6504,69 @@ SILENT = [
                "        allocated_cores = size.cores\n"
                "        allocated_gpus  = size.gpus\n\n"
                "        if rcfg.numa_domain_map:\n            numa_domains_per_node = len(rcfg.numa_domain_map)\n")]),
+    # ---- round 6: verification hooks every shipped config passes ---------------
+    dict(name='hook requiring RM, scheduler, spawner and launch methods (loop over keys)', edits=[
+        _rc_hook(_REQ_LOOP % '')]),
+    dict(name='the same hook with attribute reads, early return and a local', edits=[
+        _rc_hook("        label = self.label\n"
+                 "        if self.resource_manager and self.agent_scheduler \\\n"
+                 "                and self.agent_spawner and self.launch_methods:\n"
+                 "            return\n\n"
+                 "        raise ValueError('incomplete resource config %s' % label)\n")]),
+    dict(name='the same hook through a helper method', edits=[
+        _rc_hook("        self._require(RESOURCE_MANAGER, LAUNCH_METHODS)\n"
+                 "        self._require(AGENT_SCHEDULER, AGENT_SPAWNER)\n\n\n" + _HK.lstrip('\n') + _REQ_HELPER)]),
+    dict(name='the same hook as a comprehension, continue form and a while loop', edits=[
+        _rc_hook("        missing = [k for k in (RESOURCE_MANAGER, AGENT_SPAWNER) if not self.get(k)]\n"
+                 "        if missing:\n"
+                 "            raise ValueError('%s: missing %s' % (self.label, missing))\n\n"
+                 "        todo = [AGENT_SCHEDULER, LAUNCH_METHODS]\n"
+                 "        while todo:\n"
+                 "            key = todo.pop()\n"
+                 "            if self[key]:\n"
+                 "                continue\n"
+                 "            raise ValueError('%s: missing %s' % (self.label, key))\n")]),
+    dict(name='hook demanding a node size only for platforms which configure GPUs', edits=[
+        _rc_hook("        if self.gpus_per_node and not self.cores_per_node:\n"
+                 "            raise ValueError('%s: GPUs per node without cores per node'\n"
+                 "                             % self.label)\n\n"
+                 "        assert self.cores_per_node >= 0 and self.n_partitions >= 1\n")]),
+    dict(name='verify() overridden, typed check through super(), requirement every config meets', edits=[
+        _rc_hook("        super().verify()\n\n"
+                 "        try:\n"
+                 "            rm = self[RESOURCE_MANAGER]\n"
+                 "        except KeyError:\n"
+                 "            rm = None\n\n"
+                 "        if not rm:\n"
+                 "            raise ValueError('%s: no resource manager' % self.label)\n\n"
+                 "        return self\n", name='verify')]),
+    dict(name='hook of the nested AccessSchema demanding both endpoints', edits=[
+        _as_hook("        for key in (JOB_MANAGER_ENDPOINT, FILESYSTEM_ENDPOINT):\n"
+                 "            if not self.get(key):\n"
+                 "                raise ValueError('access schema: %s is not set' % key)\n")]),
+    dict(name='get_resource_config demands RM and launch methods after the merge', edits=[
+        (_SES, _LBL, "        rcfg.label = resource\n\n"
+                     "        if not rcfg.resource_manager or not rcfg.launch_methods:\n"
+                     "            raise ValueError('%s: incomplete config' % resource)\n\n"
+                     "        rcfg.verify()\n")]),
+    dict(name='the demand through a local, after verify()', edits=[
+        (_SES, _VER, "        rcfg.verify()\n\n"
+                     "        spawner = rcfg.get('agent_spawner')\n"
+                     "        if spawner is None or spawner == '':\n"
+                     "            raise RuntimeError('no spawner for %s' % rcfg.label)\n\n"
+                     "        return rcfg\n")]),
+    dict(name='the demand in a new static helper of the session', edits=[
+        _grc_helper('agent_scheduler'),
+        (_SES, _VER, "        rcfg.verify()\n\n        return self._check_rcfg(rcfg, resource)\n")]),
+    dict(name='an assert on a non-negative node size next to the RM lookup', edits=[
+        (_SES, "            rm = ResourceManager.get_manager(rcfg['resource_manager'])\n",
+               "            rm = ResourceManager.get_manager(rcfg['resource_manager'])\n"
+               "            assert rcfg['cores_per_node'] >= 0, 'node size of %s' % resource\n")]),
+    # ---- round 6: a correct memo of merged configs (R17.6) ----------------------
+    dict(name='memo keyed by resource and schema, deep copies in and out, slot made in __init__', edits=
+        _memo('(resource, schema)', 'copy.deepcopy(%s)', 'copy.deepcopy(rcfg)')),
+    dict(name='the same memo, slot made by setdefault in the call', edits=
+        _memo('(resource, schema)', 'copy.deepcopy(%s)', 'copy.deepcopy(rcfg)', slot=False)),
+    dict(name='the same memo through a local alias, key order swapped', edits=
+        _memo_alias('(schema, resource)')),
 ]
